@@ -157,6 +157,22 @@ func ltRun(toks []string) string {
 		return "hang"
 	}
 	full := ref.buf.Bytes()
+	// the complete document, rendered independently of the encoder's pipe and line filter: the
+	// standard indenting marshaller, then LapTimer's four spellings
+	content := "na"
+	if !mf {
+		if piped, perr := xml.MarshalIndent(db, "", "\t"); perr == nil {
+			want := xml.Header + strings.NewReplacer("&#34;", "&quot;", "&#39;", "&apos;", "&#xA;", "\n", "&#x9;", "\t").Replace(string(piped))
+			got := full
+			if gz {
+				got = nil
+				if zr, zerr := gzip.NewReader(bytes.NewReader(full)); zerr == nil {
+					got, _ = io.ReadAll(zr)
+				}
+			}
+			content = b01(string(got) == want)
+		}
+	}
 	lines := 0
 	if !gz {
 		if mf {
@@ -220,7 +236,7 @@ func ltRun(toks []string) string {
 			}
 		}
 	}
-	return fmt.Sprintf("ret=%s W=%d lines=%d total=%d delivered=%d same=%s leaked=%d complete=%s late=%d", ret, ref.n, lines, len(full), len(got), same, leaked, complete, late)
+	return fmt.Sprintf("ret=%s W=%d lines=%d total=%d delivered=%d same=%s leaked=%d complete=%s late=%d content=%s", ret, ref.n, lines, len(full), len(got), same, leaked, complete, late, content)
 }
 
 func execLT(_ *config, op string) string {
